@@ -48,6 +48,8 @@ theorem pres_listDelItem (t row o es i) : Pres (listDelItem t row o es i) := by 
 macro_rules | `(tactic| pres_lemma) => `(tactic| with_reducible apply pres_listDelItem)
 theorem pres_listSetItem (t row o es i v) : Pres (listSetItem t row o es i v) := by unfold listSetItem; pres_auto
 macro_rules | `(tactic| pres_lemma) => `(tactic| with_reducible apply pres_listSetItem)
+theorem pres_listSetSlice (t row o es lo hi vs) : Pres (listSetSlice t row o es lo hi vs) := by unfold listSetSlice; pres_auto
+macro_rules | `(tactic| pres_lemma) => `(tactic| with_reducible apply pres_listSetSlice)
 theorem pres_listCreate (t row o es h kw) : Pres (listCreate t row o es h kw) := by unfold listCreate; pres_auto
 macro_rules | `(tactic| pres_lemma) => `(tactic| with_reducible apply pres_listCreate)
 
